@@ -604,6 +604,36 @@ class Inliner:
             heads.append(("iter", s.iter))
         elif isinstance(s, ast.Match):
             heads.append(("subject", s.subject))
+        # an *expression helper* (`def _h(a, b): return <expr>`) called with simple arguments is replaced by its expression
+        # wherever it stands - also in a conditionally evaluated position (`x and _h(..)`), where a helper with statements
+        # cannot be expanded: substituting a side-effect-free expression for its call changes nothing about evaluation order
+        for fld, expr in heads:
+            uncond = {id(c) for c in self._unconditional_calls(expr)}
+            for call in self._all_calls(expr):
+                if id(call) in uncond:
+                    continue
+                r = self._resolve(call, f, root=root)
+                if r is None:
+                    continue
+                try:
+                    pre, body = self._bind(call, r[0], r[1], root, set())
+                except _NoInline:
+                    continue
+                if pre or len(body) != 1 or not isinstance(body[0], ast.Return) or body[0].value is None:
+                    continue
+                e = body[0].value
+                if any(isinstance(x, (ast.NamedExpr, ast.Yield, ast.YieldFrom, ast.Await, ast.Lambda)) for x in ast.walk(e)):
+                    continue
+
+                class R1(ast.NodeTransformer):
+                    def visit_Call(self, n):
+                        if n is call:
+                            return e
+                        self.generic_visit(n)
+                        return n
+
+                setattr(s, fld, R1().visit(getattr(s, fld)))
+                return [s]
         for fld, expr in heads:
             for call in self._unconditional_calls(expr):
                 if isinstance(call.func, ast.Name) and call.func.id == "next" and len(call.args) == 1 and not call.keywords and isinstance(call.args[0], ast.Call):
@@ -622,6 +652,24 @@ class Inliner:
                 except _NoInline as e:
                     self.log.append(f"{f.key}: {callee.key} not inlined: {e}")
         return None
+
+    @staticmethod
+    def _all_calls(expr):
+        out = []
+
+        def walk(e):
+            if isinstance(e, (ast.Lambda, ast.ListComp, ast.SetComp, ast.DictComp, ast.GeneratorExp)):
+                return
+            for c in ast.iter_child_nodes(e):
+                if isinstance(c, ast.expr):
+                    walk(c)
+                elif isinstance(c, ast.keyword):
+                    walk(c.value)
+            if isinstance(e, ast.Call):
+                out.append(e)
+
+        walk(expr)
+        return out
 
     @staticmethod
     def _unconditional_calls(expr):
